@@ -6,7 +6,11 @@
    (w_en, w_data, r_en, rst).  [areach n width tr] = (state, monitor) after running [tr] from power-on; the monitor
    [mon] logs accepted writes ([wlog]: w_rdy & w_en at a write edge) and accepted reads ([rlog]: r_rdy & r_en at a
    read edge, logging r_data) and is defined from interface signals only; [held m] = #writes - #reads.
-   All safety theorems are for reset-free runs ([no_rst tr]); the start-up r_rst pulse is part of every run. *)
+   The safety theorems are for runs without write-domain reset ([no_rst tr]; the start-up r_rst pulse is part of
+   every run).  AsyncFIFO theorems hold under ANY read-domain reset activity ([i_rrst] is unconstrained: "when the
+   read domain is reset, data remains in the FIFO"); AsyncFIFOBuffered theorems need [no_rrst tr] and the clause is
+   refuted without it.  Write-domain reset: a sufficiently long episode ([suff_reset]) makes the AsyncFIFO a fresh
+   FIFO from any state; shorter episodes are refuted. *)
 From Coq Require Import ZArith List Bool Lia.
 From V.Model Require Import Bits AsyncFifo.
 From V.Proofs Require Import BitsP AsyncFifoP.
@@ -57,18 +61,19 @@ Print Assumptions C13_empty_cond_iff.
 (* ------------------------------------------------------------------ AsyncFIFO: safety for every event list *)
 (* a run that fills the depth-2 FIFO, lets the pointers cross, reads, and has a coincident edge *)
 Definition ex_tr : list (ev * ain) :=
-  [(EW, mkIn true 5 false false); (EW, mkIn true 6 false false); (EW, mkIn true 7 true false);
-   (ER, mkIn false 0 true false); (ER, mkIn false 0 true false); (ER, mkIn false 0 true false);
-   (EWR, mkIn true 1 true false); (EW, mkIn true 2 false false); (EWR, mkIn true 3 true false);
-   (EW, mkIn true 4 false false); (ER, mkIn false 0 true false); (ER, mkIn false 0 false false)].
+  [(EW, mkIn4 true 5 false false); (EW, mkIn4 true 6 false false); (EW, mkIn4 true 7 true false);
+   (ER, mkIn4 false 0 true false); (ER, mkIn4 false 0 true false); (ER, mkIn4 false 0 true false);
+   (EWR, mkIn4 true 1 true false); (EW, mkIn4 true 2 false false); (EWR, mkIn4 true 3 true false);
+   (EW, mkIn4 true 4 false false); (ER, mkIn4 false 0 true false); (ER, mkIn4 false 0 false false)].
 (* it ends full (2 held, w_rdy = 0) with r_rdy = 1 and r_data = 3 = oldest unread; the writes of 7, 1, 2 were refused *)
 Example C13_ex_run :
-  no_rst ex_tr /\ wlog (snd (areach 1 3 ex_tr)) = [5; 6; 3; 4] /\ rlog (snd (areach 1 3 ex_tr)) = [5; 6]
+  no_rst ex_tr /\ no_rrst ex_tr /\ wlog (snd (areach 1 3 ex_tr)) = [5; 6; 3; 4] /\ rlog (snd (areach 1 3 ex_tr)) = [5; 6]
   /\ o_wrdy 1 (fst (areach 1 3 ex_tr)) = false /\ o_rrdy (fst (areach 1 3 ex_tr)) = true
   /\ o_rdata (fst (areach 1 3 ex_tr)) = 3 /\ held (snd (areach 1 3 ex_tr)) = 2 ^ 1
   /\ wlog (snd (breach 1 3 ex_tr)) = [5; 6; 3; 4] /\ rlog (snd (breach 1 3 ex_tr)) = [5; 6].
 Proof.
   split; [unfold no_rst, ex_tr; repeat (apply Forall_cons; [reflexivity|]); apply Forall_nil|].
+  split; [unfold no_rrst, ex_tr; repeat (apply Forall_cons; [reflexivity|]); apply Forall_nil|].
   vm_compute. repeat split; reflexivity.
 Qed.
 
@@ -133,9 +138,9 @@ Proof.
 Qed.
 Print Assumptions C13_async_drain_bounded.
 Example C13_async_drain_ex :
-  let tr2 := [(ER, mkIn false 0 true false); (EW, mkIn false 9 true false); (EWR, mkIn false 0 true false);
-              (ER, mkIn false 0 true false); (ER, mkIn false 0 true false)] in
-  let tr1 := [(EW, mkIn true 5 false false); (EW, mkIn true 6 false false)] in
+  let tr2 := [(ER, mkIn4 false 0 true false); (EW, mkIn4 false 9 true false); (EWR, mkIn4 false 0 true false);
+              (ER, mkIn4 false 0 true false); (ER, mkIn4 false 0 true false)] in
+  let tr1 := [(EW, mkIn4 true 5 false false); (EW, mkIn4 true 6 false false)] in
   no_rst tr1 /\ no_rst tr2 /\ no_write tr2 /\ all_ren tr2 /\ held (snd (areach 1 3 tr1)) + 2 <= r_edges tr2
   /\ rlog (snd (arun 1 3 tr2 (areach 1 3 tr1))) = [5; 6].
 Proof.
@@ -145,38 +150,39 @@ Proof.
 Qed.
 
 (* ------------------------------------------------------------------ AsyncFIFOBuffered (depth 2^n + 1) *)
-Theorem C13_buffered_no_overflow n width tr : 1 <= n -> no_rst tr ->
+Theorem C13_buffered_no_overflow n width tr : 1 <= n -> no_rst tr -> no_rrst tr ->
   let (st, m) := breach n width tr in
   0 <= held m <= 2 ^ n + 1 /\ (held m = 2 ^ n + 1 -> bo_wrdy n st = false).
 Proof.
-  intros Hn H. pose proof (BInv_reach n width tr Hn H) as I. unfold breach in *. destruct (brun n width tr (bstate0 n, mon0)) as [st m].
+  intros Hn H H2. pose proof (BInv_reach n width tr Hn H H2) as I. unfold breach in *. destruct (brun n width tr (bstate0 n, mon0)) as [st m].
   exact (BInv_no_overflow n st m Hn I).
 Qed.
 Print Assumptions C13_buffered_no_overflow.
 
-Theorem C13_buffered_fifo_order n width tr : 1 <= n -> no_rst tr ->
+Theorem C13_buffered_fifo_order n width tr : 1 <= n -> no_rst tr -> no_rrst tr ->
   let m := snd (breach n width tr) in rlog m = firstn (length (rlog m)) (wlog m).
-Proof. intros Hn H. exact (BInv_order n _ _ (BInv_reach n width tr Hn H)). Qed.
+Proof. intros Hn H H2. exact (BInv_order n _ _ (BInv_reach n width tr Hn H H2)). Qed.
 Print Assumptions C13_buffered_fifo_order.
 
-Theorem C13_buffered_r_rdy_data n width tr : 1 <= n -> no_rst tr ->
+Theorem C13_buffered_r_rdy_data n width tr : 1 <= n -> no_rst tr -> no_rrst tr ->
   let (st, m) := breach n width tr in
   bo_rrdy st = true -> 0 < held m /\ bo_rdata st = nth (length (rlog m)) (wlog m) 0.
 Proof.
-  intros Hn H. pose proof (BInv_reach n width tr Hn H) as I. unfold breach in *. destruct (brun n width tr (bstate0 n, mon0)) as [st m].
+  intros Hn H H2. pose proof (BInv_reach n width tr Hn H H2) as I. unfold breach in *. destruct (brun n width tr (bstate0 n, mon0)) as [st m].
   exact (BInv_rdy_data n st m Hn I).
 Qed.
 Print Assumptions C13_buffered_r_rdy_data.
 
-Theorem C13_buffered_levels_bounded n width tr : 1 <= n -> no_rst tr ->
+Theorem C13_buffered_levels_bounded n width tr : 1 <= n -> no_rst tr -> no_rrst tr ->
   let st := fst (breach n width tr) in
   0 <= bo_wlevel n st <= 2 ^ n + 1 /\ 0 <= bo_rlevel st <= 2 ^ n + 1.
-Proof. intros Hn H. exact (BInv_levels n _ _ Hn (BInv_reach n width tr Hn H)). Qed.
+Proof. intros Hn H H2. exact (BInv_levels n _ _ Hn (BInv_reach n width tr Hn H H2)). Qed.
 Print Assumptions C13_buffered_levels_bounded.
 
 (* once writing stops, after 3 read-clock edges (any r_en, any number of write edges interleaved) the output register
    shows an entry whenever one is held: r_rdy <-> held > 0 *)
-Theorem C13_buffered_readable_bounded n width tr1 tr2 : 1 <= n -> no_rst tr1 -> no_rst tr2 -> no_write tr2 ->
+Theorem C13_buffered_readable_bounded n width tr1 tr2 : 1 <= n -> no_rst tr1 -> no_rrst tr1 -> no_rst tr2 -> no_rrst tr2 ->
+  no_write tr2 ->
   let sm1 := breach n width tr1 in
   let sm2 := brun n width tr2 sm1 in
   3 <= r_edges tr2 ->
@@ -186,7 +192,8 @@ Print Assumptions C13_buffered_readable_bounded.
 
 (* once writing stops and the reader keeps r_en asserted, after held + 3 read-clock edges (any number of write
    edges interleaved) every written entry has been read (one edge more than AsyncFIFO: the output register) *)
-Theorem C13_buffered_drain_bounded n width tr1 tr2 : 1 <= n -> no_rst tr1 -> no_rst tr2 -> no_write tr2 -> all_ren tr2 ->
+Theorem C13_buffered_drain_bounded n width tr1 tr2 : 1 <= n -> no_rst tr1 -> no_rrst tr1 -> no_rst tr2 -> no_rrst tr2 ->
+  no_write tr2 -> all_ren tr2 ->
   let sm1 := breach n width tr1 in
   let sm2 := brun n width tr2 sm1 in
   held (snd sm1) + 3 <= r_edges tr2 ->
@@ -194,9 +201,9 @@ Theorem C13_buffered_drain_bounded n width tr1 tr2 : 1 <= n -> no_rst tr1 -> no_
 Proof. exact (bdrain_final n width tr1 tr2). Qed.
 Print Assumptions C13_buffered_drain_bounded.
 Example C13_buffered_drain_ex :
-  let tr2 := [(ER, mkIn false 0 true false); (EW, mkIn false 9 true false); (EWR, mkIn false 0 true false);
-              (ER, mkIn false 0 true false); (ER, mkIn false 0 true false); (ER, mkIn false 0 true false)] in
-  let tr1 := [(EW, mkIn true 5 false false); (EW, mkIn true 6 false false)] in
+  let tr2 := [(ER, mkIn4 false 0 true false); (EW, mkIn4 false 9 true false); (EWR, mkIn4 false 0 true false);
+              (ER, mkIn4 false 0 true false); (ER, mkIn4 false 0 true false); (ER, mkIn4 false 0 true false)] in
+  let tr1 := [(EW, mkIn4 true 5 false false); (EW, mkIn4 true 6 false false)] in
   no_rst tr1 /\ no_rst tr2 /\ no_write tr2 /\ all_ren tr2 /\ held (snd (breach 1 3 tr1)) + 3 <= r_edges tr2
   /\ rlog (snd (brun 1 3 tr2 (breach 1 3 tr1))) = [5; 6].
 Proof.
@@ -204,6 +211,104 @@ Proof.
   repeat (split; [repeat (apply Forall_cons; [reflexivity|]); apply Forall_nil|]).
   split; [vm_compute; congruence|reflexivity].
 Qed.
+
+(* ------------------------------------------------------------------ resets *)
+(* AsyncFIFO, read-domain reset: the theorems above do not constrain [i_rrst]; a run that asserts it *)
+Example C13_async_read_reset_ex :
+  let tr := [(EW, mkIn4 true 5 false false); (ER, mkIn false 0 true false true); (ER, mkIn false 0 true false true);
+             (ER, mkIn false 0 true false true); (ER, mkIn false 0 true false true)] in
+  no_rst tr /\ ~ no_rrst tr /\ rlog (snd (areach 1 3 tr)) = [5].
+Proof.
+  cbv zeta. split; [unfold no_rst; repeat (apply Forall_cons; [reflexivity|]); apply Forall_nil|].
+  split; [|reflexivity]. intros H. inversion H as [|? ? _ H1]; subst. inversion H1 as [|? ? H2 _]; subst. discriminate H2.
+Qed.
+
+(* AsyncFIFO, write-domain reset held long enough (one write edge, then three read edges, then two write edges, any
+   interleaving around them): from ANY state the FIFO becomes a fresh FIFO (invariant with empty logs) ... *)
+Theorem C13_async_reset_recovers n width trr st m : 1 <= n -> length (mem st) = Z.to_nat (2 ^ n) -> suff_reset trr ->
+  Inv n (fst (arun n width trr (st, m))) mon0 ghost0.
+Proof. exact (reset_recovers n width trr st m). Qed.
+Print Assumptions C13_async_reset_recovers.
+
+(* ... hence after ANY history tr0 (resets of any length included) and a sufficient reset episode, every reset-free
+   continuation observed by a fresh monitor is safe: order, no overflow, r_rdy data, levels *)
+Theorem C13_async_safe_after_reset n width tr0 trr tr : 1 <= n -> suff_reset trr -> no_rst tr ->
+  let st1 := fst (arun n width trr (areach n width tr0)) in
+  let (st, m) := arun n width tr (st1, mon0) in
+  rlog m = firstn (length (rlog m)) (wlog m) /\
+  0 <= held m <= 2 ^ n /\ (held m = 2 ^ n -> o_wrdy n st = false) /\
+  (o_rrdy st = true -> 0 < held m /\ o_rdata st = nth (length (rlog m)) (wlog m) 0) /\
+  0 <= o_wlevel st <= 2 ^ n /\ 0 <= o_rlevel n st <= 2 ^ n.
+Proof.
+  intros Hn Hs Hr. cbv zeta. destruct (safe_after_reset n width tr0 trr tr Hn Hs Hr) as [g I]. cbv zeta in I.
+  destruct (arun n width tr (fst (arun n width trr (areach n width tr0)), mon0)) as [st m]. cbn [fst snd] in I.
+  destruct (Inv_no_overflow n st m g Hn I) as [A B]. destruct (Inv_levels n st m g Hn I) as (C & D & _).
+  split; [apply (Inv_order n st m g I)|]. split; [exact A|]. split; [exact B|].
+  split; [intros Hrd; apply (Inv_rdy_data n st m g Hn I Hrd)|]. split; [exact C|exact D].
+Qed.
+Print Assumptions C13_async_safe_after_reset.
+Example C13_suff_reset_ex :
+  let rs e := (e, mkIn4 false 0 false true) in
+  suff_reset [rs EW; rs ER; rs EWR; rs ER; rs ER; rs EW; rs EWR].
+Proof.
+  cbv zeta. split; [unfold all_rst; repeat (apply Forall_cons; [reflexivity|]); apply Forall_nil|].
+  exists [(EW, mkIn4 false 0 false true)],
+         [(ER, mkIn4 false 0 false true); (EWR, mkIn4 false 0 false true); (ER, mkIn4 false 0 false true)],
+         [(ER, mkIn4 false 0 false true); (EW, mkIn4 false 0 false true); (EWR, mkIn4 false 0 false true)].
+  vm_compute. repeat split; congruence.
+Qed.
+
+(* a write-domain reset shorter than that is NOT safe in the code as written: one write edge under reset with no read
+   edge leaves consume_r_gry stale; afterwards r_level = 6 on a depth-4 FIFO holding nothing, and r_rdy = 1
+   (finding C13-wreset-too-short) *)
+Theorem C13_async_short_reset_refuted :
+  exists n width tr0 trr tr, all_rst trr /\ 1 <= w_edges trr /\ no_rst tr /\
+    let st := fst (arun n width tr (fst (arun n width trr (areach n width tr0)), mon0)) in
+    2 ^ n < o_rlevel n st /\ o_rrdy st = true.
+Proof.
+  exists 2, 4, [(EW, mkIn4 true 5 false false); (EW, mkIn4 true 6 false false); (ER, mkIn4 false 0 false false);
+                (ER, mkIn4 false 0 false false); (ER, mkIn4 false 0 false false)],
+         [(EW, mkIn4 false 0 false true)], [(ER, mkIn4 false 0 false false); (ER, mkIn4 false 0 false false)].
+  split; [repeat (apply Forall_cons; [reflexivity|]); apply Forall_nil|]. split; [vm_compute; congruence|].
+  split; [repeat (apply Forall_cons; [reflexivity|]); apply Forall_nil|]. vm_compute. split; reflexivity.
+Qed.
+Print Assumptions C13_async_short_reset_refuted.
+
+(* AsyncFIFOBuffered, read-domain reset: the output register is cleared while the inner FIFO has already consumed
+   the entry: the entry is lost (finding C13-buffered-rreset-drops-entry): 5 6 7 written, 6 7 read *)
+Theorem C13_buffered_read_reset_refuted :
+  exists n width tr, no_rst tr /\
+    let m := snd (breach n width tr) in wlog m = [5; 6; 7] /\ rlog m = [6; 7].
+Proof.
+  exists 2, 4, [(EW, mkIn4 true 5 false false); (EW, mkIn4 true 6 false false); (EW, mkIn4 true 7 false false);
+                (ER, mkIn4 false 0 false false); (ER, mkIn4 false 0 false false); (ER, mkIn4 false 0 false false);
+                (ER, mkIn4 false 0 false false); (ER, mkIn false 0 false false true);
+                (ER, mkIn4 false 0 true false); (ER, mkIn4 false 0 true false); (ER, mkIn4 false 0 true false);
+                (ER, mkIn4 false 0 true false)].
+  split; [repeat (apply Forall_cons; [reflexivity|]); apply Forall_nil|]. vm_compute. split; reflexivity.
+Qed.
+Print Assumptions C13_buffered_read_reset_refuted.
+
+(* AsyncFIFOBuffered, write-domain reset: even a sufficient episode does not clear the output register when the
+   reader is idle: the FIFO does not "become empty", it still offers the stale entry 5
+   (finding C13-buffered-wreset-keeps-entry) *)
+Theorem C13_buffered_wreset_keeps_entry_refuted :
+  exists n width tr0 trr, suff_reset trr /\
+    let st := fst (brun n width trr (breach n width tr0)) in bo_rrdy st = true /\ bo_rdata st = 5.
+Proof.
+  exists 2, 4, [(EW, mkIn4 true 5 false false); (ER, mkIn4 false 0 false false); (ER, mkIn4 false 0 false false);
+                (ER, mkIn4 false 0 false false); (ER, mkIn4 false 0 false false)],
+         [(EW, mkIn4 false 0 false true); (ER, mkIn4 false 0 false true); (ER, mkIn4 false 0 false true);
+          (ER, mkIn4 false 0 false true); (EW, mkIn4 false 0 false true); (EW, mkIn4 false 0 false true)].
+  split.
+  - split; [repeat (apply Forall_cons; [reflexivity|]); apply Forall_nil|].
+    exists [(EW, mkIn4 false 0 false true)],
+           [(ER, mkIn4 false 0 false true); (ER, mkIn4 false 0 false true); (ER, mkIn4 false 0 false true)],
+           [(EW, mkIn4 false 0 false true); (EW, mkIn4 false 0 false true)].
+    vm_compute. repeat split; congruence.
+  - vm_compute. split; reflexivity.
+Qed.
+Print Assumptions C13_buffered_wreset_keeps_entry_refuted.
 
 (* ------------------------------------------------------------------ constructors and elaboration *)
 (* an elaborating non-empty AsyncFIFO has depth 2^n with n = depth_bits >= 1: the [n] of the theorems above *)
